@@ -961,10 +961,11 @@ func TestCheck(t *testing.T) {
 			continue
 		}
 		p := &part{c: c, router: router, cfgs: cfgCorners(), oneScope: true,
-			daClients: engine.Pick(c, []string{"web", "pub", "norefresh"}, []string{"web", "pub", "jwt", "webjwt", "norefresh"}), maxFlows: 2,
+			daClients: engine.Pick(c, []string{"web", "pub", "norefresh"}, []string{"web", "pub", "jwt", "norefresh"}), maxFlows: 2,
 			users: engine.Pick(c, []string{"u1"}, []string{"u1", "u2"}),
 			near:  c.Thorough(), slow: true, extraWho: c.Thorough(),
-			maxFaults: engine.Pick(c, 0, 1), faultKinds: []string{"err", "deadline"}}
+			// thorough: one injected context.DeadlineExceeded per history at every storage call position of a poll
+			maxFaults: engine.Pick(c, 0, 1), faultKinds: []string{"deadline"}}
 		if p.maxFaults > 0 {
 			p.refJournals()
 		}
